@@ -40,8 +40,17 @@ RULE = ("W (runtime == NULL, dynamic tables, every name in an exact-size heap bl
         "a table's own self: port (35% of the tables, at any depth), on sub-tree ports of one path component (60%): naming "
         "a row of the same table or, for names without '#', a row of the sub-tree's own table (name/port); enabling ports "
         "q<nn>::T:F and q<nn>::i — walked with a random abstract object (15% NULL children, answers F / 0 in a third of "
-        "the cases) that the harness' own callbacks serve to the library's \"pointer\" and \"enabled by\" queries.  For every reported pair the "
-        "address is sent back through Ports::dispatch.  Reported pairs are compared as multisets (sorted by harness and "
+        "the cases) that the harness' own callbacks serve to the library's \"pointer\" and \"enabled by\" queries; next to "
+        "half of the enabling ports one or two rows whose names begin like the enabling port's name (q05x, q05_on, q051) "
+        "or are a beginning of it (q0, q), three quarters of them declared in front of it, with answers of their own "
+        "(Ports::operator[] must compare whole names).  15% of the W and D trees are 'families': 3..5 rows per table "
+        "over {a,b,c}(+{x,y,z} as first character), two or three rows of equal length that share a beginning and "
+        "differ at one position s in 1..4, the other names - sub-tree names above all - one shorter than, as long as, one "
+        "longer than that position, three quarters of these tables without any '#N': the tables for which the library "
+        "builds a perfect hash with a selected position behind the first character.  For every reported pair the "
+        "address is sent back through Ports::dispatch - W and D: without a location buffer (linear search of every "
+        "table) and with one (exact-size block for '/' + address + NUL; every table looked up by the strategy the "
+        "library picked for it); R: with one.  Reported pairs are compared as multisets (sorted by harness and "
         "driver); the report of an enabling port inside the table it switches off, which the statement leaves open, is "
         "named in the op line (opt=) and dropped by both sides.  non-trivial: the tree has a '#' or a sub-table; distinct "
         "= distinct op line")
@@ -93,7 +102,9 @@ LEVEL_NOTE = ("walk_eq_enumerate is partial: leaf names with more than one '#' a
               "callbacks) is outside the Lean model: it is tied by correspondence on the four compiled trees.  "
               "walked_address_dispatches is about rtosc_match_path level by level (C05's model); that Ports::dispatch "
               "and the type part of the pattern then deliver the message to that port's callback (dispatchSim in the "
-              "driver) is compared with the implementation but not proved.  The theorems fix the order of the reports; "
+              "driver) is compared with the implementation but not proved; the dispatch with a location buffer (hashed "
+              "tables) is compared with the same dispatchSim - that the lookup strategy does not change the callbacks is "
+              "C04's loc_independent, whose tree type is not linked to this property's in Lean.  The theorems fix the order of the reports; "
               "the statement does not, and harness, driver and oracle compare multisets")
 TECHNIQUE = "machine-checked proof over a hand-written executable model + differential correspondence + independent oracle"
 
@@ -329,16 +340,19 @@ def rand_num(rng, is_sub=True):
     return rng.choice([4, 5, 1, 1])
 
 
-def rand_name(rng, is_sub, heads_used, messy, stats):
-    for _ in range(50):
-        head = rng.choice(HEADS)
-        if messy or not any(h.startswith(head) or head.startswith(h) for h in heads_used):
-            break
-    else:
-        head = b"u%d" % len(heads_used) + b"_"
+def rand_name(rng, is_sub, heads_used, messy, stats, head=None, noparts=False):
+    if head is None:
+        for _ in range(50):
+            head = rng.choice(HEADS)
+            if messy or not any(h.startswith(head) or head.startswith(h) for h in heads_used):
+                break
+        else:
+            head = b"u%d" % len(heads_used) + b"_"
     heads_used.append(head)
     r = rng.random()
-    if is_sub:
+    if noparts:
+        nparts = 0
+    elif is_sub:
         nparts = 0 if r < 0.35 else (1 if r < 0.75 else 2)
     else:
         nparts = 0 if r < 0.6 else (1 if r < 0.985 else 2)
@@ -365,14 +379,64 @@ def rand_name(rng, is_sub, heads_used, messy, stats):
     return name
 
 
-def rand_tree(rng, depth, messy, stats, budget):
-    """budget: upper bound for the number of walker calls of this table"""
-    n = rng.randint(1, 4)
+FAM_ALPH = b"abc"
+
+
+def fam_word(rng, n, first=None):
+    w = bytes(rng.choice(FAM_ALPH) for _ in range(n))
+    return (bytes([rng.choice(first)]) + w[1:]) if first and n else w
+
+
+def family_heads(rng, roles, messy):
+    """heads for a table in which names of equal length share a beginning and differ at one position s (what makes
+    the library's perfect hash select a position behind the first character), next to names — sub-tree names above
+    all — whose length lies around that position: one shorter, equal, one longer (the hash adds the character at a
+    selected position only when it lies inside the first component of the address).  roles[k]: port k has a sub-table;
+    at least two ports have none."""
+    n = len(roles)
+    s = rng.choice([1, 2, 2, 3, 3, 4])
+    stem = fam_word(rng, s)
+    leaves = [k for k in range(n) if not roles[k]]
+    members = leaves[:rng.choice([2, 2, 3])]
+    letters = rng.sample(list(FAM_ALPH), len(members))
+    tail = fam_word(rng, rng.choice([0, 0, 1]))
+    heads = [None] * n
+    for k, l in zip(members, letters):
+        heads[k] = stem + bytes([l]) + tail
+    for k in range(n):
+        if heads[k] is not None:
+            continue
+        for _ in range(30):
+            # a sub-tree name has its '/' behind the head
+            ln = max(1, (s - 1 if roles[k] else s) + rng.choice([-1, 0, 0, 0, 1]))
+            h = fam_word(rng, ln, b"xyz" if rng.random() < 0.6 else None)
+            used = [x for x in heads if x is not None]
+            if h in used:
+                continue
+            if messy or not any(x.startswith(h) or h.startswith(x) for x in used):
+                break
+        else:
+            h = b"u%d_" % k
+        heads[k] = h
+    return heads
+
+
+def rand_tree(rng, depth, messy, stats, budget, fam=False):
+    """budget: upper bound for the number of walker calls of this table.  fam: the tables are 'families' (see
+    family_heads), three quarters of them without any '#N' — tables for which the library builds a perfect hash"""
+    n = rng.randint(3, 5) if fam else rng.randint(1, 4)
+    roles = [depth > 1 and rng.random() < 0.45 for _ in range(n)]
+    fheads, plain = None, False
+    if fam:
+        roles[:2] = [False, False]
+        rng.shuffle(roles)
+        fheads = family_heads(rng, roles, messy)
+        plain = rng.random() < 0.75
     ports = []
     heads = []
-    for _ in range(n):
-        issub = depth > 1 and rng.random() < 0.45
-        name = rand_name(rng, issub, heads, messy, stats)
+    for k in range(n):
+        issub = roles[k]
+        name = rand_name(rng, issub, heads, messy, stats, fheads[k] if fam else None, plain)
         w = parse_name(name)
         mult = 1
         for ds, _ in w.parts:
@@ -380,7 +444,7 @@ def rand_tree(rng, depth, messy, stats, budget):
         if mult > budget:
             name = w.head + (b"/" if issub else b"")
             mult = 1
-        sub = rand_tree(rng, depth - 1, messy, stats, max(1, budget // (mult * n))) if issub else None
+        sub = rand_tree(rng, depth - 1, messy, stats, max(1, budget // (mult * n)), fam) if issub else None
         if issub and rng.random() < 0.04:
             sub = []
         ports.append(Port(name, None, sub))
@@ -407,6 +471,7 @@ def make_buffer(rng, prefix, room, stats):
 
 
 SPARE = 32
+FAM_SHARE = 0.15
 
 
 def gen_static(rng, tier, stats):
@@ -416,7 +481,9 @@ def gen_static(rng, tier, stats):
     for _ in range(ntrees):
         depth = rng.choice([1, 2, 2, 3, 3, 4])
         messy = rng.random() < 0.2
-        tree = rand_tree(rng, depth, messy, st, 400)
+        fam = rng.random() < FAM_SHARE
+        tree = rand_tree(rng, depth, messy, st, 400, fam)
+        st["family_trees"] = st.get("family_trees", 0) + fam
         assert tree_ok(tree, False), show_tree(tree)
         st["slashless_subtree_names"] = st.get("slashless_subtree_names", 0) + (not tree_ok(tree))
         prefix = rng.choice(PREFIXES)
@@ -748,6 +815,49 @@ def add_guards(rng, table, stats, counter):
         stats["self_guards"] = stats.get("self_guards", 0) + 1
 
 
+def add_decoys(rng, table, stats):
+    """next to enabling ports, rows whose names begin like the enabling port's name (q05x, q05_on, q051) or are a
+    beginning of it (q0, q), declared in front of it (mostly) or behind it, with answers of their own: the lookup of
+    the "enabled by" port (Ports::operator[]) must compare whole names"""
+    for p in table:
+        if p.sub is not None:
+            add_decoys(rng, p.sub, stats)
+    guards = set()
+    for p in table:
+        g = meta_entries(p.meta).get(b"enabled by")
+        if g is not None and b"/" not in g:
+            guards.add(g)
+        elif g is not None and p.sub is not None:
+            pass                                    # name/port: a row of the sub-tree's table, visited there
+    for p in table:
+        if p.sub is not None:
+            g = meta_entries(p.meta).get(b"enabled by")
+            if g is not None and b"/" in g:
+                inner = g.split(b"/", 1)[1]
+                _decoys_for(rng, p.sub, inner, stats)
+    for g in sorted(guards):
+        _decoys_for(rng, table, g, stats)
+
+
+def _decoys_for(rng, table, g, stats):
+    k = table_index(table, g)
+    if k is None or rng.random() < 0.45:
+        return
+    for _ in range(rng.choice([1, 1, 2])):
+        if rng.random() < 0.75:
+            nm = g + rng.choice([b"x", b"_on", b"1", b".b", b"-", b"q"])
+        else:
+            nm = g[:rng.randint(1, len(g) - 1)]
+        if any(lit(q.name) == nm for q in table):
+            continue
+        kind = b"::T:F" if rng.random() < 0.65 else b"::i"
+        k = table_index(table, g)
+        at = rng.randint(0, k) if rng.random() < 0.75 else rng.randint(k + 1, len(table))
+        table.insert(at, Port(nm + kind, None, None))
+        stats["prefix_siblings"] = stats.get("prefix_siblings", 0) + 1
+        stats["prefix_siblings_in_front"] = stats.get("prefix_siblings_in_front", 0) + (at <= k)
+
+
 def rand_dyn_obj(rng, table, stats):
     tog, kids = {}, {}
     for p in table:
@@ -775,10 +885,13 @@ def gen_dynamic(rng, tier, stats):
     made = 0
     while made < n:
         depth = rng.choice([2, 2, 3, 3, 4])
-        tree = rand_tree(rng, depth, False, st, 150)
+        fam = rng.random() < FAM_SHARE
+        tree = rand_tree(rng, depth, False, st, 150, fam)
         if not tree_ok(tree) or multi_hash_leaf(tree):
             continue
+        st["family_trees"] = st.get("family_trees", 0) + fam
         add_guards(rng, tree, st, [0])
+        add_decoys(rng, tree, st)
         assert tree_ok(tree), show_tree(tree)
         obj = rand_dyn_obj(rng, tree, st)
         prefix = rng.choice([b"", b"/", b"/pre/", b"/a0/b/", b"/x/y/z/"])
@@ -824,7 +937,8 @@ def parse_out(out):
         for c in w[2].split(","):
             ix, _, rest = c.partition(":")
             addr, sep, d = rest.partition(">")
-            calls.append((ix, unhx(addr), (None if not sep else ([] if d == "-" else d.split("+")))))
+            # one list of receivers per dispatch made (W, D: without and with location buffer; R: with)
+            calls.append((ix, unhx(addr), (None if not sep else [([] if x == "-" else x.split("+")) for x in d.split(">")])))
     if len(calls) != int(w[1]):
         return None
     return calls, w[3][2:]
@@ -853,17 +967,20 @@ def check_calls(got, must, allowed, prefix, mode_fn):
     if b != hx(prefix):
         return "buffer afterwards holds %s, expected the prefix %s" % (b, hx(prefix))
     modes = {}
-    for ix, a, d in calls:
-        if d is None:
+    for ix, a, ds in calls:
+        if ds is None:
             return "no dispatch result for %s" % ix
         mode = modes.get(ix)
         if mode is None:
             mode = modes[ix] = mode_fn(tuple(int(x) for x in ix.split(".")))
-        if mode == "strict":
-            if d != [ix]:
-                return "dispatch of %s reaches %s, expected exactly the reported port %s" % (a.decode("latin1"), d or "no port", ix)
-        elif mode == "weak" and ix not in d:
-            return "dispatch of %s reaches %s, not the reported port %s" % (a.decode("latin1"), d or "no port", ix)
+        how = ["without location buffer", "with location buffer"] if len(ds) == 2 else ["with location buffer"]
+        for d, h in zip(ds, how):
+            if mode == "strict":
+                if d != [ix]:
+                    return "dispatch (%s) of %s reaches %s, expected exactly the reported port %s" % (
+                        h, a.decode("latin1"), d or "no port", ix)
+            elif mode == "weak" and ix not in d:
+                return "dispatch (%s) of %s reaches %s, not the reported port %s" % (h, a.decode("latin1"), d or "no port", ix)
     return None
 
 
@@ -994,6 +1111,6 @@ def known(op, impl_out, model_out, defs):
         leaf = p[eix[-1]]
         if len(parse_name(leaf.name).parts) >= 2 or not strict or disp_mode(tree, eix) == "skip":
             continue
-        if d is None or ix not in d:
+        if d is None or any(ix not in x for x in d):
             return None
     return "C09-K1"
